@@ -243,7 +243,7 @@ pub fn main_with(checks: &[&dyn Check]) -> i32 {
         &[id.clone()],
         shards,
         ctx.threads,
-        200,
+        5000,
         &envs,
     );
     for s in 0..shards {
